@@ -14,6 +14,10 @@ class Design:
     def __init__(self, dut, clocks=("sys",), special_overrides=None, generators=None):
         self.dut = dut
         frag = dut.get_fragment() if hasattr(dut, "get_fragment") else dut
+        # MemoryToArray iterates the *set* of specials (id-hashed, so the order of two memories differs from run to
+        # run); hand it a duid-sorted list so that elaboration is reproducible (needed by replay).  The transform
+        # replaces f.specials by a fresh set, nothing else sees the list.
+        frag.specials = sorted(frag.specials, key=lambda x: x.duid)
         self.sim = sim = Simulator(frag, generators or [], clocks={c: 10 for c in clocks},
                                    special_overrides=special_overrides or {})
         f = self.f = sim.fragment
